@@ -1,9 +1,204 @@
-import Fpdec.Lemmas.Dom
+import Fpdec.Props.C04
 import Fpdec.Props.C03_Sites
 
-/-! # C03 — property theorems (under construction: see DESIGN.md section 6) -/
+/-!
+# C03 — Division yields the quotient correctly rounded to 18 fractional digits
+
+`div_spec`, `checked_div_spec` and the integer-operand shapes: for all operands of the domain, all eight thread modes and every
+build profile, `x / y` is the exact rational quotient rounded ONCE to 18 fractional digits (`C04.checkedDivRounded_spec` with
+`n = 18`), returned with trailing fractional zeros removed (`normalize_spec`: exactly the trailing zeros, zero becomes `(0, 0)`);
+a divisor equal to one returns the dividend unchanged, a zero dividend gives `0`; a zero divisor panics / yields `None`; the only
+other failure is the overflow signal when the rounded quotient scaled by 10^18 does not fit an i128.
+Relative to `C04.WideDiv` for the 256-bit path (discharged in `Props/C16.lean`).
+-/
 
 namespace Fpdec.Props.C03
 open Fpdec Fpdec.Model
+
+/-- the loop of `normalize` against the spec's digit stripping -/
+theorem normalize_go_eq : ∀ (f : Nat) (c : Int) (n : Nat), c ≠ 0 → n ≤ f →
+    normalize.go f c n = Spec.normalizeSpec (f + 1) c n := by
+  intro f
+  induction f with
+  | zero =>
+    intro c n hc hn
+    have : n = 0 := by omega
+    subst this
+    simp [normalize.go, Spec.normalizeSpec, hc]
+  | succ f ih =>
+    intro c n hc hn
+    unfold normalize.go Spec.normalizeSpec
+    simp only [hc, if_false]
+    have ht : c.tmod 10 = 0 ↔ c % 10 = 0 := tmod_zero_iff c 10
+    by_cases h : c % 10 = 0 ∧ n > 0
+    · have h1 : c.tmod 10 = 0 ∧ n > 0 := ⟨ht.mpr h.1, h.2⟩
+      have h2 : n > 0 ∧ c % 10 = 0 := ⟨h.2, h.1⟩
+      simp only [h1, h2, and_self, if_true]
+      have hdiv : c.tdiv 10 = c / 10 := by
+        rw [Int.tdiv_eq_ediv]
+        have : (10 : Int) ∣ c := Int.dvd_of_emod_eq_zero h.1
+        simp [this]
+      rw [hdiv]
+      have hc10 : c / 10 ≠ 0 := by omega
+      exact ih (c / 10) (n - 1) hc10 (by omega)
+    · have h1 : ¬ (c.tmod 10 = 0 ∧ n > 0) := fun hh => h ⟨ht.mp hh.1, hh.2⟩
+      have h2 : ¬ (n > 0 ∧ c % 10 = 0) := fun hh => h ⟨hh.2, hh.1⟩
+      simp only [h1, h2, if_false]
+
+/-- `normalize` strips exactly the trailing zeros (18-digit input) -/
+theorem normalize_spec (c : Int) : normalize c 18 = Spec.normalizeSpec 19 c 18 := by
+  unfold normalize
+  by_cases hc : c = 0
+  · subst hc; simp [Spec.normalizeSpec]
+  · simp only [hc, if_false]
+    exact normalize_go_eq 18 c 18 hc (by omega)
+
+/-- what `Spec.div` does after the short cuts -/
+def specDivTail (tm : Mode) (a : Int) (p : Nat) (b : Int) (q : Nat) : Spec.Exp :=
+  match C04.specDivCore tm a p b q 18 with
+  | .val c n => let (c, n) := Spec.normalizeSpec 19 c n; .val c n
+  | .valOrOvf c n => let (c, n) := Spec.normalizeSpec 19 c n; .valOrOvf c n
+  | e => e
+
+theorem specDivCore_val18 (tm : Mode) (a : Int) (p : Nat) (b : Int) (q : Nat) (c : Int) (n : Nat) :
+    (C04.specDivCore tm a p b q 18 = .val c n → n = 18) ∧ (C04.specDivCore tm a p b q 18 = .valOrOvf c n → n = 18) := by
+  unfold C04.specDivCore
+  rw [valFit_eq]
+  constructor <;> intro h <;> (split at h <;> [skip; split at h]) <;> simp at h <;> omega
+
+/-- `divCore` (kernel with n = 18, then normalize) -/
+theorem divCore_spec (hw : C04.WideDiv) (prof : Profile) (tm : Mode) (a : Int) (p : Nat) (b : Int) (q : Nat)
+    (ha : I128_MIN < a ∧ a ≤ I128_MAX) (hb : I128_MIN < b ∧ b ≤ I128_MAX) (hb0 : b ≠ 0) (hp : p ≤ 18) (hq : q ≤ 18) :
+    Spec.allowedChecked (specDivTail tm a p b q) (outOptPair (divCore prof tm a p b q)) = true := by
+  have hk := C04.checkedDivRounded_spec hw prof tm a p b q 18 ha hb hb0 hp hq (by omega)
+  unfold divCore specDivTail
+  simp only [max_nfrac]
+  generalize C04.specDivCore tm a p b q 18 = e at hk ⊢
+  cases hr : checkedDivRounded prof tm a p b q 18 with
+  | panic k => rw [hr] at hk; cases e <;> simp [C04.outOptInt, Spec.allowedChecked] at hk ⊢
+  | ok o =>
+    rw [hr] at hk
+    cases o with
+    | none => cases e <;> simp [C04.outOptInt, Spec.allowedChecked] at hk ⊢
+    | some c =>
+      simp only [Outcome.bind_ok]
+      rw [normalize_spec c]
+      cases e with
+      | val c' n' =>
+        simp only [C04.outOptInt, Spec.allowedChecked, beq_iff_eq, Prod.mk.injEq] at hk
+        obtain ⟨h1, h2⟩ := hk
+        subst h1; subst h2
+        simp [Spec.allowedChecked]
+      | valOrOvf c' n' =>
+        simp only [C04.outOptInt, Spec.allowedChecked, beq_iff_eq, Prod.mk.injEq] at hk
+        obtain ⟨h1, h2⟩ := hk
+        subst h1; subst h2
+        simp [Spec.allowedChecked]
+      | ovf => simp [C04.outOptInt, Spec.allowedChecked] at hk
+      | divzero => simp [C04.outOptInt, Spec.allowedChecked] at hk
+      | nfrac => simp [C04.outOptInt, Spec.allowedChecked] at hk
+      | none => simp [C04.outOptInt, Spec.allowedChecked] at hk
+      | any => simp [Spec.allowedChecked]
+
+theorem spec_div_tail (tm : Mode) (a : Int) (p : Nat) (b : Int) (q : Nat) (hb : b ≠ 0) (ha : a ≠ 0)
+    (h1 : ¬ b = (10 : Int) ^ q) : Spec.div tm a p b q = specDivTail tm a p b q := by
+  unfold Spec.div specDivTail C04.specDivCore
+  simp only [hb, ha, if_false, C02.isOne_eq, h1, decide_false, Bool.false_eq_true]
+  cases Spec.valFit (Spec.specRoundQ tm (a * 10 ^ (18 + q)) (b * 10 ^ p)) 18 <;> rfl
+
+theorem specDivTail_shape (tm : Mode) (a : Int) (p : Nat) (b : Int) (q : Nat) :
+    specDivTail tm a p b q ≠ .divzero ∧ specDivTail tm a p b q ≠ .none ∧ specDivTail tm a p b q ≠ .nfrac := by
+  unfold specDivTail
+  obtain ⟨s1, s2, s3⟩ := C04.specDivCore_shape tm a p b q 18
+  cases h : C04.specDivCore tm a p b q 18 <;> simp_all
+
+/-- `x / y` on two Decimals (all reference forms and `/=` forward to this body) -/
+theorem div_spec (hw : C04.WideDiv) (prof : Profile) (tm : Mode) (x y : Dec) (hx : Dom x) (hy : Dom y) :
+    Spec.allowedOp (Spec.div tm x.coeff x.nfrac y.coeff y.nfrac) (outPair (div prof tm x y)) = true := by
+  obtain ⟨a, p⟩ := x
+  obtain ⟨b, q⟩ := y
+  unfold div
+  simp only [eqZero]
+  by_cases hb0 : b = 0
+  · simp [hb0, Spec.div, Spec.allowedOp]
+  · simp only [hb0, decide_false, Bool.false_eq_true, if_false]
+    by_cases ha0 : a = 0
+    · simp [ha0, hb0, Spec.div, Spec.allowedOp, Dec.ZERO]
+    · simp only [ha0, decide_false, Bool.false_eq_true, if_false]
+      rw [C02.eqOne_eq ⟨b, q⟩ hy.2.2]
+      simp only [Outcome.bind_ok]
+      by_cases h1 : b = (10 : Int) ^ q
+      · simp [h1, ha0, Spec.div, C02.isOne_eq, Spec.allowedOp]
+      · simp only [h1, decide_false, Bool.false_eq_true, if_false]
+        rw [spec_div_tail tm a p b q hb0 ha0 h1]
+        have hk := divCore_spec hw prof tm a p b q ⟨hx.1, hx.2.1⟩ ⟨hy.1, hy.2.1⟩ hb0 hx.2.2 hy.2.2
+        obtain ⟨s1, s2, s3⟩ := specDivTail_shape tm a p b q
+        have hop := allowedOp_of_checked _ _ hk s1 s2 s3
+        generalize divCore prof tm a p b q = r at hop ⊢
+        cases r with
+        | panic k => simpa [panicOnNone] using hop
+        | ok o => cases o <;> simpa [panicOnNone] using hop
+
+/-- `x.checked_div(y)`: `None` for a zero divisor or overflow, never a panic -/
+theorem checked_div_spec (hw : C04.WideDiv) (prof : Profile) (tm : Mode) (x y : Dec) (hx : Dom x) (hy : Dom y) :
+    Spec.allowedChecked (Spec.div tm x.coeff x.nfrac y.coeff y.nfrac) (outOptPair (checkedDiv prof tm x y)) = true := by
+  obtain ⟨a, p⟩ := x
+  obtain ⟨b, q⟩ := y
+  unfold checkedDiv
+  simp only [eqZero]
+  by_cases hb0 : b = 0
+  · simp [hb0, Spec.div, Spec.allowedChecked]
+  · simp only [hb0, decide_false, Bool.false_eq_true, if_false]
+    by_cases ha0 : a = 0
+    · simp [ha0, hb0, Spec.div, Spec.allowedChecked, Dec.ZERO]
+    · simp only [ha0, decide_false, Bool.false_eq_true, if_false]
+      rw [C02.eqOne_eq ⟨b, q⟩ hy.2.2]
+      simp only [Outcome.bind_ok]
+      by_cases h1 : b = (10 : Int) ^ q
+      · simp [h1, ha0, Spec.div, C02.isOne_eq, Spec.allowedChecked]
+      · simp only [h1, decide_false, Bool.false_eq_true, if_false]
+        rw [spec_div_tail tm a p b q hb0 ha0 h1]
+        exact divCore_spec hw prof tm a p b q ⟨hx.1, hx.2.1⟩ ⟨hy.1, hy.2.1⟩ hb0 hx.2.2 hy.2.2
+
+/-- `Decimal / int` and `Decimal.checked_div(int)` after the zero-divisor test (`i ≠ 0`): same as with `Decimal::from(i)` -/
+theorem div_dec_int_spec (hw : C04.WideDiv) (prof : Profile) (tm : Mode) (x : Dec) (i : Int) (hx : Dom x)
+    (hi : I128_MIN < i ∧ i ≤ I128_MAX) (hi0 : i ≠ 0) :
+    Spec.allowedChecked (Spec.div tm x.coeff x.nfrac i 0) (outOptPair (divDecInt prof tm x i)) = true := by
+  obtain ⟨a, p⟩ := x
+  unfold divDecInt
+  simp only [eqZero]
+  by_cases ha0 : a = 0
+  · simp [ha0, hi0, Spec.div, Spec.allowedChecked, Dec.ZERO]
+  · simp only [ha0, decide_false, Bool.false_eq_true, if_false]
+    by_cases h1 : i = 1
+    · simp [h1, ha0, Spec.div, C02.isOne_eq, Spec.allowedChecked]
+    · simp only [h1, if_false]
+      have h1' : ¬ i = (10 : Int) ^ 0 := by simpa using h1
+      rw [spec_div_tail tm a p i 0 hi0 ha0 h1']
+      exact divCore_spec hw prof tm a p i 0 ⟨hx.1, hx.2.1⟩ hi hi0 hx.2.2 (by omega)
+
+/-- `int / Decimal` and `int.checked_div(Decimal)` after the zero-divisor test -/
+theorem div_int_dec_spec (hw : C04.WideDiv) (prof : Profile) (tm : Mode) (i : Int) (y : Dec) (hy : Dom y)
+    (hi : I128_MIN < i ∧ i ≤ I128_MAX) (hy0 : y.coeff ≠ 0) :
+    Spec.allowedChecked (Spec.div tm i 0 y.coeff y.nfrac) (outOptPair (divIntDec prof tm i y)) = true := by
+  obtain ⟨b, q⟩ := y
+  simp only at hy0
+  unfold divIntDec
+  by_cases ha0 : i = 0
+  · simp [ha0, hy0, Spec.div, Spec.allowedChecked, Dec.ZERO]
+  · simp only [ha0, if_false]
+    rw [C02.eqOne_eq ⟨b, q⟩ hy.2.2]
+    simp only [Outcome.bind_ok]
+    by_cases h1 : b = (10 : Int) ^ q
+    · simp [h1, ha0, Spec.div, C02.isOne_eq, Spec.allowedChecked]
+    · simp only [h1, decide_false, Bool.false_eq_true, if_false]
+      rw [spec_div_tail tm i 0 b q hy0 ha0 h1]
+      exact divCore_spec hw prof tm i 0 b q hi ⟨hy.1, hy.2.1⟩ hy0 (by omega) hy.2.2
+
+/-! ### non-vacuity -/
+example : div Profile.dev .heven ⟨1, 0⟩ ⟨3, 0⟩ = .ok ⟨333333333333333333, 18⟩ := by decide
+example : div Profile.dev .heven ⟨10, 1⟩ ⟨4, 0⟩ = .ok ⟨25, 2⟩ := by decide                      -- trailing zeros removed
+example : div Profile.dev .heven ⟨1, 0⟩ ⟨0, 5⟩ = .panic .divzero ∧ checkedDiv Profile.dev .heven ⟨1, 0⟩ ⟨0, 5⟩ = .ok none := by
+  decide
 
 end Fpdec.Props.C03
